@@ -366,6 +366,10 @@ impl<'a> DocGen<'a> {
             }
             let (v, attr_ok, content_ok) = self.entity_value(k);
             let name = format!("e{}", k);
+            if self.rng.chance(1, 6) {
+                // a parameter entity with the name of a general entity declared after it
+                out.push_str(&format!("<!ENTITY % {} 'PE<pe/>'>", name));
+            }
             let dup = self.rng.chance(1, 10);
             out.push_str(&format!("<!ENTITY{}{}{}'{}'{}>", self.ws(true), name, self.ws(true), v, self.ws(false)));
             if dup {
